@@ -17,7 +17,8 @@ RULE = (
     "variation of a; one case in eight builds operands with the constructor's "
     "standardize=True and/or weeks next to other units. Integer components for exact laws, decimals for "
     "tolerance laws (1 us). Oracle: algebraic laws (commutativity, "
-    "associativity, identity, inverse, n*d == n-fold sum, a-b == a+(-1*b)); "
+    "associativity, identity, inverse, n*d == n-fold sum (also written "
+    "x = a; x += a), a-b == a+(-1*b)); "
     "exact durations equal/ordered/hashed by exact total length; equal => "
     "equal hash; nominal equality iff years, months and exact remainder "
     "match; <,<=,>,>= agree with the rough length years*DAYS_IN_YEAR(mode) + "
@@ -142,6 +143,17 @@ def check_case(case):
                 if not (prod == acc) or hash(prod) != hash(acc):
                     fail = "nfold: %d * %r = %s but the %d-fold sum is %s" % (
                         n, ka, prod, n, acc)
+                elif n >= 1:
+                    # the same sum the way a loop would write it: start from
+                    # a and add a with += (which must rebind, not update a)
+                    before = (str(a), hash(a))
+                    acc2 = a
+                    for _ in range(n - 1):
+                        acc2 += a
+                    if not (acc2 == prod) or (str(a), hash(a)) != before:
+                        fail = ("nfold_augmented: x = a; x += a (%d times) "
+                                "gives %s for a = %r (now %s), %d * a = %s" % (
+                                    n - 1, acc2, ka, a, n, prod))
             # equality / hashing / ordering of a vs b
             if fail is None:
                 ea, eb = is_exact_kw(ka), is_exact_kw(kb)
